@@ -122,6 +122,9 @@ def rate_line(g):
 def build_model(g, cls=None):
     cls = cls or MODEL_CLS[g["kind"]]
     kw = dict(beta=g["beta"], kappa=g["kappa"], tau=g["tau"], limit_sigma=g["ls"])
+    if g.get("model_mu") is not None:
+        # the model's default mu / sigma for NEW ratings (every rating in a game is built with explicit values)
+        kw.update(mu=g["model_mu"], sigma=g["model_mu"] / 3.0)
     cb = gamma_callable(*g["gamma"])
     if cb is not None:
         kw["gamma"] = cb
@@ -241,27 +244,35 @@ def first_pair(a, b):
     return None
 
 
+SHARED_ID_EVERY = 7
+
+
 def run_impl_rate(g, cls=None):
-    """-> ('OK', [[(slot_id, mu, sigma)..]..]) or ('EXC', class name)"""
+    """-> ('OK', [[(slot_id, mu, sigma)..]..]) or ('EXC', class name).
+    Players are told apart by their (unique) names.  Every seventh game (by hash) the first players of all teams — or, every
+    other time, all players — are distinct objects carrying ONE id (clones of a template: deepcopy keeps the id; a shared
+    guest account): ids are labels, never keys."""
     model = build_model(g, cls)
     teams = build_teams(model, g)
-    ident = {}
+    h = game_hash(g)
+    if SHARED_ID_EVERY and h % SHARED_ID_EVERY == 1:
+        CALL_STATS["shared_ids"] = CALL_STATS.get("shared_ids", 0) + 1
+        flat = [p for t in teams for p in t]
+        for p in ([t[0] for t in teams] if h // 7 % 2 else flat):
+            p.id = flat[0].id
+    slot = {}
     k = 0
     for t in teams:
         for p in t:
-            ident[id(p)] = k
+            slot[p.name] = k
             k += 1
-    uu = {}
-    for t in teams:
-        for p in t:
-            uu[p.id] = ident[id(p)]
     try:
         res = call_rate(model, teams, g)
     except Exception as e:  # noqa: BLE001
         return ("EXC", type(e).__name__)
     out = []
     for t in res:
-        out.append([(uu.get(p.id, -1), p.mu, p.sigma) for p in t])
+        out.append([(slot.get(p.name, -1), p.mu, p.sigma) for p in t])
     return ("OK", out)
 
 
@@ -423,6 +434,12 @@ def impl_teams(g, cls=None):
     """run rate on the implementation; -> list of teams of (mu, sigma) or raises"""
     model = build_model(g, cls)
     teams = build_teams(model, g)
+    h = game_hash(g)
+    if SHARED_ID_EVERY and h % SHARED_ID_EVERY == 1:
+        CALL_STATS["shared_ids"] = CALL_STATS.get("shared_ids", 0) + 1
+        flat = [p for t in teams for p in t]
+        for p in ([t[0] for t in teams] if h // 7 % 2 else flat):
+            p.id = flat[0].id
     out = call_rate(model, teams, g)
     return [[(p.mu, p.sigma) for p in t] for t in out]
 
